@@ -1025,4 +1025,266 @@ theorem staff_spec (divs : Nat) (ks : List String) (layers : List (Nat × Nat ×
   · intro l hl hs m hm hk
     exact f1 l (List.mem_filter.mpr ⟨hl, by simpa using hs⟩) m hm hk
 
+/-! ### maxima -/
+
+theorem foldl_max_ge_init (l : List Rat) (a : Rat) : a ≤ l.foldl (fun x y => if x < y then y else x) a := by
+  induction l generalizing a with
+  | nil => exact le_refl _
+  | cons b rest ih =>
+    simp only [List.foldl_cons]
+    split
+    · rename_i h; exact le_trans (le_of_lt h) (ih b)
+    · exact ih a
+
+theorem foldl_max_ge_mem (l : List Rat) (a x : Rat) (hx : x ∈ l) : x ≤ l.foldl (fun x y => if x < y then y else x) a := by
+  induction l generalizing a with
+  | nil => cases hx
+  | cons b rest ih =>
+    simp only [List.foldl_cons]
+    rcases List.mem_cons.mp hx with rfl | hx
+    · split
+      · exact foldl_max_ge_init rest x
+      · rename_i h; exact le_trans (not_lt.mp h) (foldl_max_ge_init rest a)
+    · exact ih _ hx
+
+theorem foldl_max_le (l : List Rat) (a B : Rat) (ha : a ≤ B) (hl : ∀ x ∈ l, x ≤ B) :
+    l.foldl (fun x y => if x < y then y else x) a ≤ B := by
+  induction l generalizing a with
+  | nil => exact ha
+  | cons b rest ih =>
+    simp only [List.foldl_cons]
+    split
+    · exact ih b (hl b (by simp)) (fun x hx => hl x (by simp [hx]))
+    · exact ih a ha (fun x hx => hl x (by simp [hx]))
+
+theorem ratMaxFrom_le (d : Rat) (l : List Rat) (B : Rat) (hd : d ≤ B) (hl : ∀ x ∈ l, x ≤ B) : ratMaxFrom d l ≤ B := by
+  cases l with
+  | nil => exact hd
+  | cons a rest => exact foldl_max_le rest a B (hl a (by simp)) (fun x hx => hl x (by simp [hx]))
+
+theorem ratMaxFrom_ge_mem (d : Rat) (l : List Rat) (x : Rat) (hx : x ∈ l) : x ≤ ratMaxFrom d l := by
+  cases l with
+  | nil => cases hx
+  | cons a rest =>
+    rcases List.mem_cons.mp hx with rfl | hx
+    · exact foldl_max_ge_init rest x
+    · exact foldl_max_ge_mem rest a x hx
+
+/-! ### the staves of a measure -/
+
+theorem mapMOpt_mem {α β : Type} (f : α → Option β) (l : List α) (r : List β) (h : mapMOpt f l = some r) :
+    (∀ a ∈ l, ∃ b ∈ r, f a = some b) ∧ (∀ b ∈ r, ∃ a ∈ l, f a = some b) := by
+  induction l generalizing r with
+  | nil => simp [mapMOpt] at h; subst h; simp
+  | cons a rest ih =>
+    obtain ⟨b, bs, rfl, hb, hbs⟩ := mapMOpt_cons f a rest r h
+    obtain ⟨i1, i2⟩ := ih bs hbs
+    constructor
+    · intro x hx
+      rcases List.mem_cons.mp hx with rfl | hx
+      · exact ⟨b, by simp, hb⟩
+      · obtain ⟨y, hy, hf⟩ := i1 x hx
+        exact ⟨y, by simp [hy], hf⟩
+    · intro y hy
+      rcases List.mem_cons.mp hy with rfl | hy
+      · exact ⟨a, by simp, hb⟩
+      · obtain ⟨x, hx, hf⟩ := i2 y hy
+        exact ⟨x, by simp [hx], hf⟩
+
+theorem mapMOpt_filter {α β : Type} (f : α → Option β) (p : α → Bool) (l : List α) (r : List β) (h : mapMOpt f l = some r) :
+    ∃ r', mapMOpt f (l.filter p) = some r' := by
+  induction l generalizing r with
+  | nil => exact ⟨[], rfl⟩
+  | cons a rest ih =>
+    obtain ⟨b, bs, rfl, hb, hbs⟩ := mapMOpt_cons f a rest r h
+    obtain ⟨r', hr'⟩ := ih bs hbs
+    simp only [List.filter_cons]
+    split
+    · exact ⟨b :: r', by simp [mapMOpt, hb, hr']⟩
+    · exact ⟨r', hr'⟩
+
+/-- the staff elements of a measure, one after the other -/
+theorem staves_spec (divs : Nat) (ks : List String) (layers : List (Nat × Nat × List Item)) (start : Nat) (E : Rat)
+    (allEnds : List Nat) (hok : mapMOpt (fun l => itemsOk divs start l.2.2) layers = some allEnds)
+    (hle : ∀ e ∈ allEnds, q divs e ≤ E)
+    (ss : List Nat) (es : List (List Ev)) (hev : mapMOpt (staffEvs ks layers) ss = some es)
+    (st : Mei.St) (hc : MeasCtx st) (hpos : st.pos = (start : Rat) / (divs : Rat)) (hposE : st.pos ≤ E) :
+    ∃ de new c v sn li le ms se, runEvs st es.flatten = some { st with notes := new ++ st.notes, cursor := c, voice := v,
+                                                                        staffN := sn, layerIdx := li, layerEnds := le, measures := ms,
+                                                                        staffEnds := se ++ st.staffEnds,
+                                                                        staffIdx := st.staffIdx + ss.length, durEls := de } ∧
+      (∀ r ∈ new, st.staffIdx ≤ r.part ∧ r.part < st.staffIdx + ss.length) ∧
+      (∀ l ∈ layers, l.1 ∈ ss → ∀ m ∈ l.2.2.flatMap itemNotes, m.n.kind ≠ 2 → ∃ r ∈ new, rfact r = factOf divs m) ∧
+      (∀ x ∈ se, x ≤ E) ∧ se.length = ss.length ∧
+      (∀ l ∈ layers, l.1 ∈ ss → ∀ e, itemsOk divs start l.2.2 = some e → ∃ x ∈ se, q divs e ≤ x) := by
+  induction ss generalizing es st with
+  | nil =>
+    simp [mapMOpt] at hev
+    subst hev
+    exact ⟨st.durEls, [], st.cursor, st.voice, st.staffN, st.layerIdx, st.layerEnds, st.measures, [],
+      by simp [runEvs], by simp, by simp, by simp, rfl, by simp⟩
+  | cons s rest ih =>
+    obtain ⟨ev, es', rfl, hev1, hes⟩ := mapMOpt_cons _ s rest es hev
+    obtain ⟨ends, hends⟩ := mapMOpt_filter _ (fun l => decide (l.1 = s)) layers allEnds hok
+    obtain ⟨de1, new1, c1, v1, sn1, li1, le1, ms1, r1, p1, f1⟩ :=
+      staff_spec divs ks layers s start ends hends ev hev1 st hc hpos
+    -- the ends of this staff are ends of the measure
+    have hsub : ∀ e ∈ ends, e ∈ allEnds := by
+      intro e he
+      obtain ⟨a, ha, hfa⟩ := (mapMOpt_mem _ _ _ hends).2 e he
+      obtain ⟨b, hb, hfb⟩ := (mapMOpt_mem _ _ _ hok).1 a (List.mem_filter.mp ha).1
+      rw [hfa] at hfb
+      simp at hfb
+      rw [hfb]; exact hb
+    let e1 : Rat := ratMaxFrom st.pos ((ends.map (q divs)).reverse)
+    have he1 : e1 ≤ E := ratMaxFrom_le _ _ _ hposE (by
+      intro x hx
+      simp only [List.mem_reverse, List.mem_map] at hx
+      obtain ⟨e, he, rfl⟩ := hx
+      exact hle e (hsub e he))
+    let st1 : Mei.St := { st with notes := new1 ++ st.notes, cursor := c1, voice := v1, staffN := sn1,
+                                   layerIdx := li1, layerEnds := le1, measures := ms1,
+                                   staffEnds := e1 :: st.staffEnds, staffIdx := st.staffIdx + 1, durEls := de1 }
+    have hc1 : MeasCtx st1 := ⟨hc.par, hc.noLayer, hc.noTup, hc.ch⟩
+    obtain ⟨de2, new2, c2, v2, sn2, li2, le2, ms2, se2, r2, p2, f2, b2, len2, g2⟩ := ih es' hes st1 hc1 hpos hposE
+    refine ⟨de2, new2 ++ new1, c2, v2, sn2, li2, le2, ms2, se2 ++ [e1], ?_, ?_, ?_, ?_, ?_, ?_⟩
+    · simp only [List.flatten_cons]
+      rw [runEvs_append, r1]
+      simp only [Option.bind_some]
+      rw [r2]
+      simp [st1, Nat.add_assoc, Nat.add_comm 1]
+    · intro r hr
+      rcases List.mem_append.mp hr with h | h
+      · have := p2 r h
+        simp only [st1, List.length_cons] at this ⊢
+        omega
+      · have := p1 r h
+        simp only [List.length_cons]
+        omega
+    · intro l hl hs m hm hk
+      rcases List.mem_cons.mp hs with h | h
+      · obtain ⟨r, hr, hf⟩ := f1 l hl h m hm hk
+        exact ⟨r, by simp [hr], hf⟩
+      · obtain ⟨r, hr, hf⟩ := f2 l hl h m hm hk
+        exact ⟨r, by simp [hr], hf⟩
+    · intro x hx
+      rcases List.mem_append.mp hx with h | h
+      · exact b2 x h
+      · simp at h; rw [h]; exact he1
+    · simp [len2]
+    · intro l hl hs e he
+      rcases List.mem_cons.mp hs with h | h
+      · refine ⟨e1, by simp, ?_⟩
+        have hmem : l ∈ layers.filter (fun l => decide (l.1 = s)) := List.mem_filter.mpr ⟨hl, by simpa using h⟩
+        obtain ⟨b, hb, hfb⟩ := (mapMOpt_mem _ _ _ hends).1 l hmem
+        rw [he] at hfb
+        simp at hfb
+        subst hfb
+        exact ratMaxFrom_ge_mem _ _ _ (by simp only [List.mem_reverse, List.mem_map]; exact ⟨e, hb, rfl⟩)
+      · obtain ⟨x, hx, hxe⟩ := g2 l hl h e he
+        exact ⟨x, by simp [hx], hxe⟩
+
+/-- every part has a meter of its own (written as a `meterSig` child of its `staffDef`) -/
+def AllMeters (st : Mei.St) : Prop := ∀ d ∈ st.defs, ∃ m, d.meter = some m
+
+theorem mapM_resolve (st : Mei.St) (ds : List PartDef) (h : ∀ d ∈ ds, ∃ m, d.meter = some m) :
+    ∃ ms, ds.mapM (resolveMeter st) = some ms := by
+  induction ds with
+  | nil => exact ⟨[], rfl⟩
+  | cons d rest ih =>
+    obtain ⟨m, hm⟩ := h d (by simp)
+    obtain ⟨ms, hms⟩ := ih (fun x hx => h x (by simp [hx]))
+    exact ⟨m :: ms, by simp [List.mapM_cons, resolveMeter, hm, hms]⟩
+
+theorem ensureStarted_ok (st : Mei.St) (h : AllMeters st) :
+    ∃ M, ensureStarted st = some { st with meters := M, started := true } := by
+  by_cases hs : st.started = true
+  · refine ⟨st.meters, ?_⟩
+    simp only [ensureStarted, hs, if_true]
+    congr 1
+    cases st
+    simp_all
+  · obtain ⟨ms, hms⟩ := mapM_resolve st (partsInOrder st) (by
+      intro d hd
+      exact h d (by simpa [partsInOrder] using hd))
+    exact ⟨ms, by simp [ensureStarted, hs, hms]⟩
+
+theorem openEv_measure (st : Mei.St) (as : List (String × String)) (M : List (Nat × Nat))
+    (hpre : pre st "measure" as = some st) (hes : ensureStarted st = some { st with meters := M, started := true }) :
+    openEv st "measure" as =
+      some { st with meters := M, started := true, measName := attr as "n", staffIdx := 0, staffEnds := [],
+                     stack := { tag := "measure", attrs := as } :: st.stack } := by
+  simp only [pre] at hpre
+  simp [openEv, hpre, hes]
+
+theorem closeEv_measure (st : Mei.St) (f : Frame) (rest : List Frame) (hs : st.stack = f :: rest)
+    (hf : f.tag = "measure") (hn : st.staffIdx = st.defs.length) :
+    closeEv st = some { st with stack := rest, pos := ratMaxFrom st.pos st.staffEnds, measNo := st.measNo + 1 } := by
+  simp [closeEv, hs, hf, hn]
+
+/-- inside the `section`, between two measures -/
+structure SecCtx (st : Mei.St) (nstaves : Nat) : Prop where
+  noLayer : inLayer st.stack = false
+  noTup : tupletsOf st.stack = []
+  ch : st.chord = none
+  defs : st.defs.length = nstaves
+  meters : AllMeters st
+  inSec : st.inSection = true
+
+theorem itemsOk_ge (divs : Nat) (items : List Item) (cur e : Nat) (h : itemsOk divs cur items = some e) : cur ≤ e := by
+  have leaf : ∀ tup c l c', leafOk divs tup c l = some c' → c ≤ c' := by
+    intro tup c l c' hl
+    cases l with
+    | single m =>
+      simp only [leafOk] at hl
+      split at hl
+      · simp only [Option.some.injEq] at hl
+        split at hl <;> omega
+      · simp at hl
+    | chord ms =>
+      simp only [leafOk] at hl
+      split at hl
+      · simp at hl
+      · split at hl
+        · simp only [Option.some.injEq] at hl; omega
+        · simp at hl
+  have leaves : ∀ tup ls c c', leavesOk divs tup c ls = some c' → c ≤ c' := by
+    intro tup ls
+    induction ls with
+    | nil => intro c c' hl; simp [leavesOk] at hl; omega
+    | cons l rest ih =>
+      intro c c' hl
+      simp only [leavesOk] at hl
+      cases h1 : leafOk divs tup c l with
+      | none => simp [h1] at hl
+      | some c1 =>
+        simp only [h1] at hl
+        have := leaf tup c l c1 h1
+        have := ih c1 c' hl
+        omega
+  induction items generalizing cur with
+  | nil => simp [itemsOk] at h; omega
+  | cons it rest ih =>
+    cases it with
+    | leaf l =>
+      simp only [itemsOk] at h
+      cases h1 : leafOk divs none cur l with
+      | none => simp [h1] at h
+      | some c1 =>
+        simp only [h1] at h
+        have := leaf none cur l c1 h1
+        have := ih c1 h
+        omega
+    | tuplet num numbase inner =>
+      simp only [itemsOk] at h
+      split at h
+      · simp at h
+      · cases h1 : leavesOk divs (some (num, numbase)) cur inner with
+        | none => simp [h1] at h
+        | some c1 =>
+          simp only [h1] at h
+          have := leaves _ inner cur c1 h1
+          have := ih c1 h
+          omega
+
 end C19M
